@@ -66,7 +66,17 @@ impl Property for C14 {
 
     fn generate(&self, rng: &mut Rng, _tier: Tier) -> Case {
         let on_files = rng.chance(1, 3);
-        let mut case = Case::new("C14", if on_files { "endless-file" } else { "endless" });
+        let process = !on_files && rng.chance(1, 10);
+        let mut case = Case::new(
+            "C14",
+            if on_files {
+                "endless-file"
+            } else if process {
+                "endless-process"
+            } else {
+                "endless"
+            },
+        );
         let w = StreamWish {
             min_records: 0,
             max_records: 6,
@@ -305,8 +315,116 @@ impl Property for C14 {
                 ),
             );
         }
+        if case.family == "endless-process" {
+            return check_process(case, &prefix, endless, d, &l1, ctx);
+        }
         None
     }
+    fn process_level(&self) -> bool {
+        true
+    }
+}
+
+const PROC_SLACK: usize = 1024 * 1024;
+const PROC_CAP: usize = 4 * 1024 * 1024;
+
+/// The real executable with its standard input on a pipe that a producer thread keeps
+/// filling (prefix, then the endless tail) until the pipe breaks, the child exits, or a cap
+/// far beyond any read-ahead is reached. Real concurrency: how far the producer gets ahead
+/// of jawk is the kernel's business (pipe capacity 64 KiB), so only termination, the exit
+/// status, the rows and a generous bound on the bytes the producer could write are judged.
+fn check_process(case: &Case, prefix: &[u8], endless: &Endless, d: usize, l1: &RunOut, ctx: &mut Ctx) -> Option<Violation> {
+    use std::io::Write;
+    let bin = super::c20::bin_path();
+    if !bin.exists() {
+        ctx.harness_error = Some(format!("process level needs {} (run ./check setup)", bin.display()));
+        return None;
+    }
+    let outp = ctx.fresh_path("o");
+    let errp = ctx.fresh_path("e");
+    let (Ok(of), Ok(ef)) = (std::fs::File::create(&outp), std::fs::File::create(&errp)) else {
+        ctx.harness_error = Some("cannot create output files".into());
+        return None;
+    };
+    let mut cmd = std::process::Command::new(&bin);
+    cmd.args(case.argv()).stdin(std::process::Stdio::piped()).stdout(of).stderr(ef);
+    let mut child = match cmd.spawn() {
+        Ok(c) => c,
+        Err(e) => {
+            ctx.harness_error = Some(format!("cannot spawn {}: {e}", bin.display()));
+            return None;
+        }
+    };
+    let mut pipe = child.stdin.take().unwrap();
+    let head = prefix.to_vec();
+    let en = endless.clone();
+    let producer = std::thread::spawn(move || {
+        let mut written = 0usize;
+        let mut k = 0u64;
+        let mut buf = head;
+        loop {
+            while buf.len() < 4096 {
+                buf.extend_from_slice(&en.record(k));
+                k += 1;
+            }
+            match pipe.write(&buf) {
+                Ok(0) | Err(_) => break,
+                Ok(n) => {
+                    written += n;
+                    buf.drain(..n);
+                }
+            }
+            if written > PROC_CAP {
+                break;
+            }
+        }
+        written
+    });
+    let st = crate::driver::wait_limited(&mut child, std::time::Duration::from_secs(30));
+    let written = producer.join().unwrap_or(0);
+    let out = std::fs::read(&outp).unwrap_or_default();
+    let err = std::fs::read(&errp).unwrap_or_default();
+    let _ = std::fs::remove_file(&outp);
+    let _ = std::fs::remove_file(&errp);
+    ctx.stats.runs += 1;
+    ctx.stats.fault("endless-input.process-pipe", 1);
+    ctx.stats.probe(match written.saturating_sub(d) {
+        0..=8192 => "process: producer got <= 8 KiB ahead of the last row's byte",
+        8193..=73728 => "process: producer got 8..72 KiB ahead (stdin buffer + pipe capacity)",
+        _ => "process: producer got > 72 KiB ahead",
+    });
+    let Some(st) = st else {
+        return viol(
+            "C14.terminates",
+            format!("the executable did not finish within 30 s on an endless standard input (producer wrote {written} bytes)"),
+        );
+    };
+    if written > PROC_CAP {
+        return viol(
+            "C14.terminates",
+            format!("the executable kept reading an endless standard input: the producer wrote {written} bytes although --take was satisfied after {d}"),
+        );
+    }
+    if written > d + PROC_SLACK {
+        return viol(
+            "C14.bounded",
+            format!("the producer could write {written} bytes although the last row was complete after {d} bytes"),
+        );
+    }
+    if l1.outcome.is_ok() {
+        if st.code() != Some(0) {
+            return viol("C14.terminates", format!("the executable exited with {st} ({}) where in-process go succeeds", show(&err)));
+        }
+    } else if st.code() == Some(0) {
+        return viol("C14.terminates", "the executable exited with 0 where in-process go fails".to_string());
+    }
+    if out != l1.obs.stdout {
+        return viol(
+            "C14.rows",
+            format!("rows of the executable on an endless pipe differ from the finite in-process run: {} vs {}", show(&out), show(&l1.obs.stdout)),
+        );
+    }
+    None
 }
 
 /// The same property with the unbounded input arriving through a file argument (hook H2):
